@@ -2239,7 +2239,16 @@ impl Kanata {
             .as_ref()
             .map(|cv2| cv2.accepts_chords_chv2())
             .unwrap_or(true);
-        is_idle && !counting_idle_ticks && passed_max_switch_timing_check && chordsv2_accepts_chords
+        // NOTE: like the key-timing check, a running dynamic macro recording does not mean that
+        // kanata is in a non-idle state, only that ticks must keep coming: the recording counts
+        // the ticks between the events it records, so if the loop blocked, the recorded delays
+        // would stop at the moment of blocking.
+        let recording_dynamic_macro = k.dynamic_macro_record_state.is_some();
+        is_idle
+            && !counting_idle_ticks
+            && passed_max_switch_timing_check
+            && chordsv2_accepts_chords
+            && !recording_dynamic_macro
     }
 
     pub fn is_idle(&self) -> bool {
